@@ -254,6 +254,17 @@ func runC13(c *C13Case) C13Obs {
 				o.Violations = append(o.Violations, "second-validation-changes-request"+c.defaultKinds())
 			}
 		}
+		// O3b: the same, when the caller validates again with the very same input object
+		if !containsPrefix(o.Violations, "second-validation-changes-request") && !containsPrefix(o.Violations, "revalidate-") {
+			q3, h3, ck3, b3, _ := snapshot(req)
+			var err3 error
+			if p := catchPanic(func() { err3 = openapi3filter.ValidateRequest(context.Background(), in) }); p == nil && err3 == nil {
+				q4, h4, ck4, b4, _ := snapshot(req)
+				if !sameMulti(q3, q4) || !sameMulti(h3, h4) || fmt.Sprint(ck3) != fmt.Sprint(ck4) || !sameJSONText(b3, b4) {
+					o.Violations = append(o.Violations, "validation-with-the-same-input-object-changes-request")
+				}
+			}
+		}
 		// O4: defaults of a non-matching branch never appear
 		if len(c.OtherBranch) > 0 && o.BodyAfter != "" {
 			var v any
@@ -369,6 +380,15 @@ func c13DefaultIs(d any, o C13Obs, p C13Param) bool {
 		return exploded || (len(vals) == 1 && (vals[0] == strings.Join(flat, ",") || vals[0] == strings.Join(pairs, ",")))
 	}
 	return true
+}
+
+func containsPrefix(l []string, p string) bool {
+	for _, x := range l {
+		if strings.HasPrefix(x, p) {
+			return true
+		}
+	}
+	return false
 }
 
 // which kinds of parameter defaults a case has (part of the finding signature)
